@@ -507,7 +507,8 @@ int write_elf(
 
     symbol_count = symbols->export_count();
 
-    int symbol_address[symbol_count];
+    // At least one element: a zero length array is not defined.
+    int symbol_address[symbol_count + 1];
 
     // .strtab section
     file.align(4);
